@@ -15,6 +15,7 @@ CONSTANTS MaxLenP = 3
 INIT Init
 NEXT NextGen
 INVARIANT PShape
+INVARIANT PInputs
 INVARIANT PNoCross
 INVARIANT PIdem
 INVARIANT PRefines
